@@ -294,10 +294,12 @@ def _row_count(ctx: Context, fi: FuncInfo, arg: Optional[ast.expr], nd) -> Optio
     rows = set()
     for d in ds:
         if d.kind == "param":
-            # rows of a parameter: resolved at the (single) internal call site
+            # rows of a parameter: resolved at the internal call site(s)
             callers = ctx.cg.callers.get(fi.qualname, [])
+            params = [p for p in fi.params if p not in ("self", "cls")]
+            idx = params.index(arg.id) if arg.id in params else 0
             for (cf, call) in callers:
-                a = call.args[0] if call.args else None
+                a = call_arg(call, idx, arg.id)
                 r = _row_count(ctx, cf, a, flow_of(cf.node).node_containing(call))
                 rows.add(r)
             continue
@@ -306,6 +308,16 @@ def _row_count(ctx: Context, fi: FuncInfo, arg: Optional[ast.expr], nd) -> Optio
             rows.add(None)
             continue
         r = None
+        if isinstance(v, ast.Call) and not (ctx.res.external_name(fi, v) or "").startswith("numpy."):
+            from ..chain import enter_call
+
+            ent = enter_call(ctx, fi, v, d.path)
+            if ent is not None:
+                if isinstance(ent.value, ast.Name):
+                    rows.add(_row_count(ctx, ent.fi, ent.value, ent.node))
+                    continue
+                v = ent.value
+                fi_v = ent.fi
         if isinstance(v, ast.Call):
             nm = ctx.res.external_name(fi, v) or ""
             if nm in ("numpy.array", "numpy.asarray") and v.args and isinstance(v.args[0], ast.ListComp):
@@ -323,11 +335,19 @@ def _row_count(ctx: Context, fi: FuncInfo, arg: Optional[ast.expr], nd) -> Optio
 
 
 def _rows_of_name(ctx: Context, fi: FuncInfo, name: ast.Name, nd) -> Optional[str]:
-    fl = flow_of(fi.node)
-    ds = fl.reaching(nd, name.id)
+    from ..chain import defs_of, enter_call
+
     out = set()
-    for d in ds:
-        v = d.value
+    for lk in defs_of(ctx, fi, nd, name.id):
+        v = lk.value
+        fi2 = lk.fi
+        # a helper that allocates and fills the proposal array: follow its returned name
+        if isinstance(v, ast.Call) and (ctx.res.external_name(fi2, v) or "") not in ("numpy.empty_like", "numpy.zeros_like"):
+            ent = enter_call(ctx, fi2, v)
+            if ent is not None and isinstance(ent.value, ast.Name):
+                out.add(_rows_of_name(ctx, ent.fi, ent.value, ent.node))
+                continue
+        fi = fi2
         if isinstance(v, ast.Call) and (ctx.res.external_name(fi, v) or "") in ("numpy.empty_like", "numpy.zeros_like") and v.args:
             a = v.args[0]
             # rows of self.u = n_walkers when (n_walkers, n_dim) = x.shape and u, x are parallel arrays
